@@ -11,7 +11,9 @@ Oracle for values: common.peval on the raw term dict (includes the offset key ()
 import itertools
 
 from .common import (clause, Fail, Skip, LABELS, COEFS, gen_models, variables_of, peval, cls_of, close)
-from ..repo import import_qubovert
+from .. import REPO
+from ..repo import import_qubovert, build_canneal
+from ._c17_driver import run_driver
 
 FNS = ["qubo", "quso", "pubo", "puso"]
 SPIN_FN = {"qubo": False, "quso": True, "pubo": False, "puso": True}
@@ -122,7 +124,49 @@ def _aspect_best(case, res):
 _ASPECTS = [_aspect_count, _aspect_keys, _aspect_domain, _aspect_value, _aspect_best]
 
 
+_preflight_result = None
+
+
+def preflight():
+    """Once per process: run a fixed set of ordinary calls on the freshly built kernels in a *separate* interpreter.
+    If that interpreter is killed by a signal (or hangs), the kernels are not executed in this process at all - every
+    case is reported as a violation with key crash:... instead of taking the checker down.  -> Fail or None"""
+    global _preflight_result
+    if _preflight_result is None:
+        so = build_canneal()
+        calls = []
+        for fn in FNS:
+            for tname in TYPES[fn]:
+                for terms in _special_models(fn, tname):
+                    if not variables_of(terms):
+                        continue
+                    vs = _expected_vars({"type": tname, "terms": terms})
+                    dom = (1, -1) if SPIN_FN[fn] else (0, 1)
+                    calls.append({"fn": fn, "type": tname, "terms": terms,
+                                  "kw": {"num_anneals": 3, "anneal_duration": 3, "seed": 5}})
+                    calls.append({"fn": fn, "type": tname, "terms": terms,
+                                  "kw": {"num_anneals": 2, "schedule": [1.0, 0], "seed": 6, "in_order": False,
+                                         "initial_state": {v: dom[0] for v in vs}}})
+        rc, out, err, to = run_driver("api", so, calls, repo=REPO, timeout=60)
+        if to or (rc is not None and rc < 0) or "DONE" not in out:
+            import re
+            ms = re.findall(r"^CALL (\d+)$", err, flags=re.M)
+            i = int(ms[-1]) if ms else None
+            which = calls[i] if i is not None and i < len(calls) else None
+            kind = "hang" if to else ("crash:signal%d" % -rc if rc is not None and rc < 0 else "died:rc=%r" % rc)
+            _preflight_result = Fail("the freshly built kernels %s in a separate interpreter during an ordinary call: %r"
+                                     % ("hang" if to else "crash", which),
+                                     key="%s:anneal_%s" % (kind, which["fn"] if which else "?"),
+                                     observed=(err or out)[-1200:], required="the call returns")
+        else:
+            _preflight_result = False
+    return _preflight_result or None
+
+
 def _check(case, aspects):
+    pf = preflight()
+    if pf is not None:
+        return pf
     if case["type"] in MATRIX and not variables_of(case["terms"]):
         try:
             res = _call(case)
